@@ -25,6 +25,7 @@ from fractions import Fraction
 
 from .. import protocols
 from ..harness import arr, extobj, integer, scalar
+from .. import tq
 from ..interp import State
 from ..terms import FRESH, Dim, T, V, fresh_id, vconst
 from . import pcovr_common as pc
@@ -122,7 +123,7 @@ def check(ctx):
             if ctx.ob("R-PIPE", f"[{cfg}] _fit receives (K, Yhat, W)", a is not None and len(a) == 3, f"{a!r}"[:200], site, cfg):
                 ctx.ob("R-PIPE", f"[{cfg}] training kernel = _get_kernel(X){' centred by centerer_.fit_transform' if center else ''}", N.nf(a[0].term) == N.nf(Kt), f"K = {a[0].term!r}", site, cfg)
                 if reg == "default":
-                    ctx.ob("R-REGRESSOR", f"[{cfg}] Yhat = K @ W with W = regressor_.dual_coef_", a[1].term.op == "matmul" and N.nf(a[1].term.args[0]) == N.nf(Kt) and "dual_coef_" in repr(a[2].term) and a[1].term.args[1] == a[2].term, f"Yhat = {repr(a[1].term)[:200]}; W = {repr(a[2].term)[:120]}", site, cfg)
+                    ctx.ob("R-REGRESSOR", f"[{cfg}] Yhat = K @ W with W = regressor_.dual_coef_", a[1].term.op == "matmul" and N.nf(a[1].term.args[0]) == N.nf(Kt) and tq.has_attr(a[2].term, "dual_coef_") and a[1].term.args[1] == a[2].term, f"Yhat = {repr(a[1].term)[:200]}; W = {repr(a[2].term)[:120]}", site, cfg)
                     ctx.shape_is("Shape", f"[{cfg}] W is (n_samples, n_targets)", a[2], ("N", "P"), site, cfg)
                 else:
                     ctx.ob("R-REGRESSOR", f"[{cfg}] precomputed: Yhat is a copy of the supplied targets", a[1].term == Y.term and not any(o_[0] == "in" for o_ in a[1].orig), f"Yhat = {a[1].term!r}", site, cfg)
@@ -234,7 +235,7 @@ def user_regressor(ctx):
     lo = len(I.events)
     ctx.call_method(I, st, o, "fit", arr("X", "N", "M"), arr("Y", "N", "P"))
     ev = I.events[lo:]
-    raises = [i for i, e in enumerate(ev) if e["kind"] == "raise" and e.get("short") == "KernelPCovR.fit" and any("kernel" in repr(c) or "getattr" in repr(c) or "all" in repr(c) for c, _ in e["pc"])]
+    raises = [i for i, e in enumerate(ev) if e["kind"] == "raise" and e.get("short") == "KernelPCovR.fit" and any(tq.has_op(c, "all", "getattr", "attr") for c, _ in e["pc"])]
     clones = [i for i, e in enumerate(ev) if e["kind"] == "clone"]
     ctx.ob("R-REGRESSOR", "a user regressor's kernel parameters are compared before it is used", bool(raises) and bool(clones) and min(raises) < min(clones), f"mismatch raise at event {raises[:1]}, first clone at {clones[:1]}", site)
     bad = [e for e in ev if e["kind"] == "mutate-object" and e["method"] == "fit" and any(o_[0] == "in" for o_ in e["target"].orig)]
